@@ -102,7 +102,7 @@ C02_Q = [
     H("h2_text_n4", "one XmlSource helper (read_text) on a BufRead delivering <=4 symbolic bytes in 2 pieces (cut symbolic) vs the same helper of the slice source on the same bytes (hooks verif_source)", [], cost=6),
     H("h2_elem_n4", "one XmlSource helper (read_with(ElementParser)) on a BufRead delivering <=4 symbolic bytes in 2 pieces (cut symbolic) vs the same helper of the slice source on the same bytes (hooks verif_source)", [], cost=6),
     H("h2_pi_n4", "one XmlSource helper (read_with(PiParser)) on a BufRead delivering <=4 symbolic bytes in 2 pieces (cut symbolic) vs the same helper of the slice source on the same bytes (hooks verif_source)", [], cost=6),
-    H("h2_bang_n4", "one XmlSource helper (read_bang_element) on a BufRead delivering <=4 symbolic bytes in 2 pieces (cut symbolic) vs the same helper of the slice source on the same bytes (hooks verif_source)", [], cost=9, mem_gb=26),
+    H("h2_bang_n4", "one XmlSource helper (read_bang_element) on a BufRead delivering <=4 symbolic bytes in 2 pieces (cut symbolic) vs the same helper of the slice source on the same bytes (hooks verif_source)", [], cost=9, mem_gb=28, gb=22, timeout=1500),
     H("h2_skipws_n4", "one XmlSource helper (skip_whitespace) on a BufRead delivering <=4 symbolic bytes in 2 pieces (cut symbolic) vs the same helper of the slice source on the same bytes (hooks verif_source)", [], cost=6),
     H("h2_peek_n4", "one XmlSource helper (peek_one) on a BufRead delivering <=4 symbolic bytes in 2 pieces (cut symbolic) vs the same helper of the slice source on the same bytes (hooks verif_source)", [], cost=6),
     H("h2_bom_n4", "one XmlSource helper (remove_utf8_bom) on a BufRead delivering <=4 symbolic bytes in 2 pieces (cut symbolic) vs the same helper of the slice source on the same bytes (hooks verif_source)", [], cost=6),
@@ -129,9 +129,9 @@ C02_T = [
 FLT = "buffered step over a source with a solver-chosen fault (none / Interrupted / one of 6 other error kinds incl. UnexpectedEof, WouldBlock) at each of its first 3 refills, 2 pieces; "
 C18_Q = [
     H("h18_text_n3", "one XmlSource helper (read_text) on a BufRead delivering <=3 symbolic bytes in 2 pieces, with a solver-chosen fault (none / Interrupted / one of 6 other error kinds) at each of its first 3 refills, vs the slice helper", ["io error delivered"], cost=6),
-    H("h18_elem_n3", "one XmlSource helper (read_with(ElementParser)) on a BufRead delivering <=3 symbolic bytes in 2 pieces, with a solver-chosen fault (none / Interrupted / one of 6 other error kinds) at each of its first 3 refills, vs the slice helper", ["io error delivered"], cost=6),
-    H("h18_pi_n3", "one XmlSource helper (read_with(PiParser)) on a BufRead delivering <=3 symbolic bytes in 2 pieces, with a solver-chosen fault (none / Interrupted / one of 6 other error kinds) at each of its first 3 refills, vs the slice helper", ["io error delivered"], cost=6),
-    H("h18_bang_n3", "one XmlSource helper (read_bang_element) on a BufRead delivering <=3 symbolic bytes in 2 pieces, with a solver-chosen fault (none / Interrupted / one of 6 other error kinds) at each of its first 3 refills, vs the slice helper", ["io error delivered"], cost=6),
+    H("h18_elem_n3", "one XmlSource helper (read_with(ElementParser)) on a BufRead delivering <=3 symbolic bytes in 2 pieces, with a solver-chosen fault (none / Interrupted / one of 6 other error kinds) at each of its first 3 refills, vs the slice helper", ["io error delivered"], cost=9, mem_gb=28, gb=22, timeout=1500),
+    H("h18_pi_n3", "one XmlSource helper (read_with(PiParser)) on a BufRead delivering <=3 symbolic bytes in 2 pieces, with a solver-chosen fault (none / Interrupted / one of 6 other error kinds) at each of its first 3 refills, vs the slice helper", ["io error delivered"], cost=9, mem_gb=28, gb=22, timeout=1500),
+    H("h18_bang_n3", "one XmlSource helper (read_bang_element) on a BufRead delivering <=3 symbolic bytes in 2 pieces, with a solver-chosen fault (none / Interrupted / one of 6 other error kinds) at each of its first 3 refills, vs the slice helper", ["io error delivered"], cost=9, mem_gb=28, gb=22, timeout=1500),
     H("h18_skipws_n3", "one XmlSource helper (skip_whitespace) on a BufRead delivering <=3 symbolic bytes in 2 pieces, with a solver-chosen fault (none / Interrupted / one of 6 other error kinds) at each of its first 3 refills, vs the slice helper", ["io error delivered"], cost=6),
     H("h18_peek_n3", "one XmlSource helper (peek_one) on a BufRead delivering <=3 symbolic bytes in 2 pieces, with a solver-chosen fault (none / Interrupted / one of 6 other error kinds) at each of its first 3 refills, vs the slice helper", ["io error delivered"], cost=6),
     H("h18_bom_n3", "one XmlSource helper (remove_utf8_bom) on a BufRead delivering <=3 symbolic bytes in 2 pieces, with a solver-chosen fault (none / Interrupted / one of 6 other error kinds) at each of its first 3 refills, vs the slice helper", ["io error delivered"], cost=6),
